@@ -2,17 +2,17 @@ import VibeProof.Props.C15
 /-
 C13 — ROLLBACK restores exactly the state at BEGIN; COMMIT keeps the last state.
 
-Model: `Model/TableSM.lean` (BEGIN snapshots rows and hash indexes; ROLLBACK restores them and —
-since fix a2743cd5 — rebuilds the DATA of the registry's user-defined indexes from the restored
-rows; the SET of registry indexes is not part of the snapshot).
+Model: `Model/TableSM.lean` — BEGIN snapshots rows, hash indexes and (fix 650ff828) the registry
+of user-defined indexes; ROLLBACK restores all three and (fix a2743cd5) rebuilds the registry's
+index data from the restored rows.
 
 Observation of a state: rows, hash indexes, the list of user-defined indexes (name, columns,
 uniqueness) and the answer of every index-driven equality lookup.
 
-* `C13_rollback_restores_partial`: for every committed pre-state and every in-transaction history
-  without CREATE / DROP INDEX the observation after ROLLBACK equals the one before BEGIN.
-* `C13_full` (no restriction on the history) is false of the code as it is:
-  `C13_index_ddl_counterexample` — an index created inside the transaction survives ROLLBACK.
+* `C13_rollback_restores`: for every committed pre-state and EVERY in-transaction history (DML,
+  TRUNCATE, CREATE / DROP INDEX, savepoint operations) the observation after ROLLBACK equals
+  the one before BEGIN.  (Before fix 650ff828 this held only without index DDL: an index created
+  inside the transaction survived ROLLBACK.)
 * `C13_commit_keeps_last_state`: COMMIT changes nothing but the transaction flag.
 -/
 namespace VibeProof.C13
@@ -25,11 +25,6 @@ def InTxnOp : Op → Prop
   | .begin => False
   | .commit => False
   | .rollback => False
-  | _ => True
-
-def NotIndexDdl : Op → Prop
-  | .createIndex _ _ _ => False
-  | .dropIndex _ => False
   | _ => True
 
 /-- same observation: table contents, constraint indexes, schema objects (index list) and the
@@ -45,71 +40,68 @@ def afterRollback (s : TState) (ops : List Op) : TState :=
 def afterCommit (s : TState) (ops : List Op) : TState :=
   (step (run (step s .begin).1 ops) .commit).1
 
-/-- the property at full strength -/
-def C13_full : Prop :=
-  ∀ (s : TState) (ops : List Op), s.txn = none → IndexInv s → (∀ op ∈ ops, InTxnOp op) →
-    SameObs (afterRollback s ops) s ∧ (afterRollback s ops).txn = none
-
 theorem insertMany_txn (rs : List Row) : ∀ (s : TState) (t : Txn), s.txn = some t →
-    ∃ t', (insertMany s rs).txn = some t' ∧ t'.snapRows = t.snapRows ∧ t'.snapH = t.snapH := by
+    ∃ t', (insertMany s rs).txn = some t' ∧ t'.snapRows = t.snapRows ∧ t'.snapH = t.snapH ∧
+      t'.snapU = t.snapU := by
   induction rs with
-  | nil => intro s t ht; exact ⟨t, ht, rfl, rfl⟩
+  | nil => intro s t ht; exact ⟨t, ht, rfl, rfl, rfl⟩
   | cons r rs ih =>
     intro s t ht
     have h1 : (insert1 s r).txn = some { t with log := t.log ++ [r] } := by
       simp [insert1, logIns, ht]
-    obtain ⟨t', h2, h3, h4⟩ := ih _ _ h1
-    exact ⟨t', h2, h3, h4⟩
+    obtain ⟨t', h2, h3, h4, h5⟩ := ih _ _ h1
+    exact ⟨t', h2, h3, h4, h5⟩
 
 /-- no statement inside a transaction touches the snapshot taken at BEGIN -/
 theorem step_keeps_snapshot (s : TState) (op : Op) (t : Txn) (hop : InTxnOp op)
     (ht : s.txn = some t) :
-    ∃ t', (step s op).1.txn = some t' ∧ t'.snapRows = t.snapRows ∧ t'.snapH = t.snapH := by
+    ∃ t', (step s op).1.txn = some t' ∧ t'.snapRows = t.snapRows ∧ t'.snapH = t.snapH ∧
+      t'.snapU = t.snapU := by
   cases op with
   | insert rs => exact insertMany_txn rs s t ht
   | update ups =>
     simp only [step]
     split
-    · exact ⟨t, ht, rfl, rfl⟩
-    · exact ⟨t, ht, rfl, rfl⟩
+    · exact ⟨t, ht, rfl, rfl, rfl⟩
+    · exact ⟨t, ht, rfl, rfl, rfl⟩
   | upsert i new =>
     simp only [step]
     split
-    · exact ⟨t, ht, rfl, rfl⟩
-    · exact ⟨t, ht, rfl, rfl⟩
-  | delete ps => exact ⟨t, ht, rfl, rfl⟩
-  | truncate => exact ⟨t, ht, rfl, rfl⟩
+    · exact ⟨t, ht, rfl, rfl, rfl⟩
+    · exact ⟨t, ht, rfl, rfl, rfl⟩
+  | delete ps => exact ⟨t, ht, rfl, rfl, rfl⟩
+  | truncate => exact ⟨t, ht, rfl, rfl, rfl⟩
   | replace r =>
     simp only [step, insert1, logIns, ht, Option.map_some]
-    exact ⟨_, rfl, rfl, rfl⟩
+    exact ⟨_, rfl, rfl, rfl, rfl⟩
   | createIndex name cols unique =>
     simp only [step]
     split
-    · exact ⟨t, ht, rfl, rfl⟩
-    · exact ⟨t, ht, rfl, rfl⟩
+    · exact ⟨t, ht, rfl, rfl, rfl⟩
+    · exact ⟨t, ht, rfl, rfl, rfl⟩
   | dropIndex name =>
     simp only [step]
     split
-    · exact ⟨t, ht, rfl, rfl⟩
-    · exact ⟨t, ht, rfl, rfl⟩
+    · exact ⟨t, ht, rfl, rfl, rfl⟩
+    · exact ⟨t, ht, rfl, rfl, rfl⟩
   | begin => exact absurd hop (by simp [InTxnOp])
   | commit => exact absurd hop (by simp [InTxnOp])
   | rollback => exact absurd hop (by simp [InTxnOp])
   | savepoint n =>
     simp only [step, ht]
-    exact ⟨_, rfl, rfl, rfl⟩
+    exact ⟨_, rfl, rfl, rfl, rfl⟩
   | rollbackTo n =>
     simp only [step, ht]
     split
-    · exact ⟨t, ht, rfl, rfl⟩
+    · exact ⟨t, ht, rfl, rfl, rfl⟩
     · split
-      · exact ⟨t, ht, rfl, rfl⟩
-      · exact ⟨_, rfl, rfl, rfl⟩
+      · exact ⟨t, ht, rfl, rfl, rfl⟩
+      · exact ⟨_, rfl, rfl, rfl, rfl⟩
   | release n =>
     simp only [step, ht]
     split
-    · exact ⟨t, ht, rfl, rfl⟩
-    · exact ⟨_, rfl, rfl, rfl⟩
+    · exact ⟨t, ht, rfl, rfl, rfl⟩
+    · exact ⟨_, rfl, rfl, rfl, rfl⟩
 
 theorem insertMany_shape (rs : List Row) : ∀ (s : TState),
     (insertMany s rs).uidx.map shape = s.uidx.map shape := by
@@ -136,108 +128,46 @@ theorem uRebuildAll_shape (us : List UIdx) (rows : List Row) :
     (uRebuildAll us rows).map shape = us.map shape := by
   simp [uRebuildAll, List.map_map, Function.comp_def, shape]
 
-/-- statements other than CREATE / DROP INDEX leave the list of user-defined indexes alone -/
-theorem step_keeps_index_list (s : TState) (op : Op) (hop : NotIndexDdl op) :
-    (step s op).1.uidx.map shape = s.uidx.map shape := by
-  cases op with
-  | insert rs => exact insertMany_shape rs s
-  | update ups =>
-    simp only [step]
-    split
-    · rfl
-    · exact updUser_shape _ _ _
-  | upsert i new =>
-    simp only [step]
-    split
-    · rfl
-    · simp [List.map_map, Function.comp_def, shape]
-  | delete ps => exact uRebuildAll_shape _ _
-  | truncate => exact uRebuildAll_shape _ _
-  | replace r =>
-    simp only [step, insert1, List.map_map, Function.comp_def, shape]
-    split
-    · rfl
-    · simp only [uRebuildAll, List.map_map, Function.comp_def]
-      apply List.map_congr_left
-      intro a _; rfl
-  | createIndex name cols unique => exact absurd hop (by simp [NotIndexDdl])
-  | dropIndex name => exact absurd hop (by simp [NotIndexDdl])
-  | begin => simp only [step]; split <;> rfl
-  | commit => simp only [step]; split <;> rfl
-  | rollback =>
-    simp only [step]
-    split
-    · rfl
-    · exact uRebuildAll_shape _ _
-  | savepoint n => simp only [step]; split <;> rfl
-  | rollbackTo n =>
-    simp only [step]
-    split
-    · rfl
-    · split
-      · rfl
-      · split
-        · rfl
-        · simp only
-          split
-          · rfl
-          · exact uRebuildAll_shape _ _
-  | release n =>
-    simp only [step]
-    split
-    · rfl
-    · split <;> rfl
-
 theorem run_keeps_snapshot (ops : List Op) : ∀ (s : TState) (t : Txn),
     (∀ op ∈ ops, InTxnOp op) → s.txn = some t →
-    ∃ t', (run s ops).txn = some t' ∧ t'.snapRows = t.snapRows ∧ t'.snapH = t.snapH := by
+    ∃ t', (run s ops).txn = some t' ∧ t'.snapRows = t.snapRows ∧ t'.snapH = t.snapH ∧
+      t'.snapU = t.snapU := by
   induction ops with
-  | nil => intro s t _ ht; exact ⟨t, ht, rfl, rfl⟩
+  | nil => intro s t _ ht; exact ⟨t, ht, rfl, rfl, rfl⟩
   | cons op ops ih =>
     intro s t hops ht
-    obtain ⟨t1, h1, h2, h3⟩ := step_keeps_snapshot s op t (hops op (by simp)) ht
-    obtain ⟨t', h4, h5, h6⟩ := ih _ t1 (fun o ho => hops o (by simp [ho])) h1
-    exact ⟨t', h4, h5.trans h2, h6.trans h3⟩
+    obtain ⟨t1, h1, h2, h3, h3u⟩ := step_keeps_snapshot s op t (hops op (by simp)) ht
+    obtain ⟨t', h4, h5, h6, h6u⟩ := ih _ t1 (fun o ho => hops o (by simp [ho])) h1
+    exact ⟨t', h4, h5.trans h2, h6.trans h3, h6u.trans h3u⟩
 
-theorem run_keeps_index_list (ops : List Op) : ∀ (s : TState), (∀ op ∈ ops, NotIndexDdl op) →
-    (run s ops).uidx.map shape = s.uidx.map shape := by
-  induction ops with
-  | nil => intro s _; rfl
-  | cons op ops ih =>
-    intro s hops
-    rw [run, ih _ (fun o ho => hops o (by simp [ho]))]
-    exact step_keeps_index_list s op (hops op (by simp))
-
-/-- ROLLBACK restores the observation at BEGIN for every pre-state and every in-transaction
-history of DML (INSERT, UPDATE, DELETE, TRUNCATE, REPLACE, upsert) and savepoint operations —
-index-driven query answers included.  Excluded: CREATE / DROP INDEX inside the transaction. -/
-theorem C13_rollback_restores_partial (s : TState) (ops : List Op) (hs : s.txn = none)
-    (hinv : IndexInv s) (hops : ∀ op ∈ ops, InTxnOp op) (hddl : ∀ op ∈ ops, NotIndexDdl op) :
+/-- ROLLBACK restores the observation at BEGIN for every committed pre-state and every
+in-transaction history of DML (INSERT, UPDATE, DELETE, TRUNCATE, REPLACE, upsert), index DDL
+(CREATE / DROP INDEX) and savepoint operations — index-driven query answers included -/
+theorem C13_rollback_restores (s : TState) (ops : List Op) (hs : s.txn = none)
+    (hinv : IndexInv s) (hops : ∀ op ∈ ops, InTxnOp op) :
     SameObs (afterRollback s ops) s ∧ (afterRollback s ops).txn = none := by
-  have hb : (step s .begin).1 = { s with txn := some { snapRows := s.rows, snapH := s.hidx, saves := [], log := [] } } := by
+  have hb : (step s .begin).1 = { s with txn := some { snapRows := s.rows, snapH := s.hidx, snapU := s.uidx, saves := [], log := [] } } := by
     simp [step, hs]
-  obtain ⟨t', ht', hr, hh⟩ := run_keeps_snapshot ops (step s .begin).1 _ hops (by rw [hb])
-  have hshape : (run (step s .begin).1 ops).uidx.map shape = s.uidx.map shape := by
-    rw [run_keeps_index_list ops _ hddl, hb]
+  obtain ⟨t', ht', hr, hh, hu⟩ := run_keeps_snapshot ops (step s .begin).1 _ hops (by rw [hb])
   have hroll : afterRollback s ops = (step (run (step s .begin).1 ops) .rollback).1 := rfl
-  generalize hs2 : run (step s .begin).1 ops = s2 at ht' hshape hroll
+  generalize hs2 : run (step s .begin).1 ops = s2 at ht' hroll
   have e1 : (step s2 .rollback).1.rows = t'.snapRows := by simp [step, ht']
   have e2 : (step s2 .rollback).1.hidx = t'.snapH := by simp [step, ht']
-  have e3 : (step s2 .rollback).1.uidx = uRebuildAll s2.uidx t'.snapRows := by simp [step, ht']
+  have e3 : (step s2 .rollback).1.uidx = uRebuildAll t'.snapU t'.snapRows := by simp [step, ht']
   have e4 : (step s2 .rollback).1.txn = none := by simp [step, ht']
   rw [hroll]
-  simp only at hr hh
+  simp only at hr hh hu
   refine ⟨⟨e1.trans hr, e2.trans hh, ?_, ?_⟩, e4⟩
-  · rw [e3, uRebuildAll_shape]; exact hshape
+  · rw [e3, uRebuildAll_shape, hu]
   · intro i ua ub k hua hub
     rw [e3] at hua
     rw [e1]
     have hsh : shape ua = shape ub := by
-      have h1 : ((uRebuildAll s2.uidx t'.snapRows).map shape)[i]? = some (shape ua) := by
+      have h1 : ((uRebuildAll t'.snapU t'.snapRows).map shape)[i]? = some (shape ua) := by
         rw [List.getElem?_map, hua]; rfl
       have h2 : (s.uidx.map shape)[i]? = some (shape ub) := by
         rw [List.getElem?_map, hub]; rfl
-      rw [uRebuildAll_shape, hshape, h2] at h1
+      rw [uRebuildAll_shape, hu, h2] at h1
       exact (Option.some.inj h1).symm
     have hcols : ua.cols = ub.cols := by
       have := congrArg (fun x => x.2.1) hsh; exact this
@@ -248,14 +178,11 @@ theorem C13_rollback_restores_partial (s : TState) (ops : List Op) (hs : s.txn =
     rw [hr, hcols] at hua_ok
     exact uLookup_perm _ _ _ _ hua_ok hub_ok k
 
-/-- the unrestricted statement fails on the code as it is: CREATE INDEX inside a transaction
-survives ROLLBACK (the registry of user-defined indexes is outside the snapshot) -/
-theorem C13_index_ddl_counterexample : ¬ C13_full := by
-  intro h
-  have h1 := h (run (init [([0], false)]) [.insert [[.int 1]]]) [.createIndex "I" [0] false] rfl
-    (C15_history_preserves _ _ (C15_init _) (by simp [HistOk, OpOk])) (by simp [InTxnOp])
-  have h2 := h1.1.2.2.1
-  revert h2
+/-- the former counterexample (CREATE INDEX inside the transaction) is now restored as well -/
+theorem C13_index_ddl_is_rolled_back :
+    let s := run (init [([0], false)]) [.insert [[.int 1]], .createIndex "Q" [0] false]
+    (afterRollback s [.createIndex "I" [0] false, .dropIndex "Q", .delete [0]]).uidx = s.uidx ∧
+    (afterRollback s [.createIndex "I" [0] false, .dropIndex "Q", .delete [0]]).rows = s.rows := by
   decide
 
 /-- COMMIT keeps the state reached by the last statement -/
@@ -264,9 +191,9 @@ theorem C13_commit_keeps_last_state (s : TState) (ops : List Op) (hs : s.txn = n
     let last := run (step s .begin).1 ops
     (afterCommit s ops).rows = last.rows ∧ (afterCommit s ops).hidx = last.hidx ∧
     (afterCommit s ops).uidx = last.uidx ∧ (afterCommit s ops).txn = none := by
-  have hb : (step s .begin).1.txn = some { snapRows := s.rows, snapH := s.hidx, saves := [], log := [] } := by
+  have hb : (step s .begin).1.txn = some { snapRows := s.rows, snapH := s.hidx, snapU := s.uidx, saves := [], log := [] } := by
     simp [step, hs]
-  obtain ⟨t', ht', _, _⟩ := run_keeps_snapshot ops (step s .begin).1 _ hops hb
+  obtain ⟨t', ht', _, _, _⟩ := run_keeps_snapshot ops (step s .begin).1 _ hops hb
   have hc : afterCommit s ops = (step (run (step s .begin).1 ops) .commit).1 := rfl
   intro last
   have hl : last = run (step s .begin).1 ops := rfl
@@ -275,13 +202,14 @@ theorem C13_commit_keeps_last_state (s : TState) (ops : List Op) (hs : s.txn = n
   simp [step, ht']
 
 /-- non-vacuity: a committed state with a PRIMARY KEY and a user-defined index, and an
-in-transaction history that changes every structure; the hypotheses hold and the rollback
-really has something to restore -/
+in-transaction history that changes every structure (index DDL included); the hypotheses hold
+and the rollback really has something to restore -/
 example :
     let s := run (init [([0], false)]) [.createIndex "I" [1] false, .insert [[.int 1, .int 10], [.int 2, .int 20]]]
-    let ops : List Op := [.delete [0], .insert [[.int 3, .int 10]], .savepoint "A", .truncate]
-    s.txn = none ∧ (run (step s .begin).1 ops).rows = [] ∧ (afterRollback s ops).rows = s.rows ∧
-      (∀ op ∈ ops, InTxnOp op) ∧ (∀ op ∈ ops, NotIndexDdl op) := by
-  refine ⟨by decide, by decide, by decide, ?_, ?_⟩ <;> simp [InTxnOp, NotIndexDdl]
+    let ops : List Op := [.delete [0], .insert [[.int 3, .int 10]], .savepoint "A", .dropIndex "I", .truncate]
+    s.txn = none ∧ (run (step s .begin).1 ops).rows = [] ∧ (run (step s .begin).1 ops).uidx = [] ∧
+      (afterRollback s ops).rows = s.rows ∧ (∀ op ∈ ops, InTxnOp op) := by
+  refine ⟨by decide, by decide, by decide, by decide, ?_⟩
+  simp [InTxnOp]
 
 end VibeProof.C13
